@@ -241,11 +241,14 @@ def seed_fault(version, fault, pos, exhaustive=False):
         if n is None:
             return None
         a = _get_attr(n, "inLibrary")
+        # foreign names: unrelated, and near misses of the schema's own library name (part of it, or containing it)
+        names = ["otherlib"] + ([lib[:3], lib[1:], lib + "x", lib.upper()] if lib else ["x"])
+        foreign = names[pos % len(names)]
         if a is None:
-            _attr(n, "inLibrary", ["otherlib"])
+            _attr(n, "inLibrary", [foreign])
         else:
-            a.find("value").text = "otherlib"
-        desc = n.findtext("name")
+            a.find("value").text = foreign
+        desc = f"{n.findtext('name')} inLibrary={foreign}"
     elif fault in ("hed-id-out-of-range", "hed-id-changed", "hed-id-malformed"):
         if version != "8.3.0":
             return None
